@@ -77,17 +77,49 @@ Theorem C20_dyn_get_in_range : forall d k i, inv rt_params d -> d_kind d = ek k 
 Proof. exact (fun d k i => get_in_range rt_params d k i C20_params_good). Qed.
 Print Assumptions C20_dyn_get_in_range.
 
-(* REFUTED at full strength ("after ANY series of operations the contents equal those of the abstract list"):
-   two operations of the unchanged code leave the domain by touching memory they do not own / undefined arithmetic.
+(* REFUTED at full strength ("after ANY series of operations the contents equal those of the abstract list") on the
+   pinned tree: two operations leave the domain by touching memory they do not own / undefined arithmetic.
    (1) dyn_array_clone of a struct array: the clone is created with elem_size 0 / data NULL and memcpy writes
        length*elem_size bytes into it;   (2) nl_array_slice: int64 end = start + length overflows.
-   Both witnesses are replayed on the real code by tools/props/c20.py (known findings c20:dyn:clone-struct,
-   c20:dyn:slice-overflow). *)
+   [rt_clone_struct_fixed] / [rt_slice_clamped] are MEASURED on the current code (the translator replays exactly these
+   witnesses in a sanitized child process), so the statement follows the code: while a defect is present its witness
+   Crashes; once the repair (proposed_fixes/C20-clone-struct.diff, C20-array-slice-clamp.diff) is in, the same history
+   is inside the domain and ends as the list says.  tools/props/c20.py replays both witnesses through dyn_probe as well
+   (known findings c20:dyn:clone-struct, c20:dyn:slice-overflow). *)
 Theorem C20_dyn_refines_list_refuted :
-  snd (run rt_params (dyn_new rt_params EStruct) [PushStruct [1; 2]%N; Clone]) = Crashed /\
-  snd (run rt_params (dyn_new rt_params EInt) [Push SInt 1; Push SInt 2; Slice 1 9223372036854775807]) = Crashed.
+  (if rt_clone_struct_fixed
+   then fst (lrun rt_params (abs (dyn_new rt_params EStruct)) [PushStruct [1; 2]%N; Clone; GetStruct 0]) = [OUnit; OUnit; OCell (Blob [1; 2]%N)]
+   else snd (run rt_params (dyn_new rt_params EStruct) [PushStruct [1; 2]%N; Clone]) = Crashed) /\
+  (if rt_slice_clamped
+   then fst (lrun rt_params (abs (dyn_new rt_params EInt)) [Push SInt 1; Push SInt 2; Slice 1 9223372036854775807; Get SInt 0]) = [OUnit; OUnit; OUnit; OCell (Val 2)]
+   else snd (run rt_params (dyn_new rt_params EInt) [Push SInt 1; Push SInt 2; Slice 1 9223372036854775807]) = Crashed).
 Proof. vm_compute. split; reflexivity. Qed.
 Print Assumptions C20_dyn_refines_list_refuted.
+
+(* the domain of the specification, spelled out: the only operations [lstep] excludes *)
+Theorem C20_dyn_excluded_is : forall l o, lstep rt_params l o = LExcluded ->
+  match o with
+  | Reserve n => (p_limit rt_params < n)%Z
+  | Clone => (l_kind l = EStruct /\ rt_clone_struct_fixed = false) \/ (p_limit rt_params < Z.of_nat (length (l_items l)))%Z
+  | Slice a b => rt_slice_clamped = false
+  | PushStruct bs => struct_size_ok bs = false
+  | _ => False
+  end.
+Proof.
+  intros l o H. destruct o; cbn [lstep] in H;
+    repeat match type of H with
+           | (if ?c then _ else _) = LExcluded => let E := fresh "E" in destruct c eqn:E
+           | match ?c with _ => _ end = LExcluded => let E := fresh "E" in destruct c eqn:E
+           end; try discriminate;
+    repeat match goal with
+           | E : (_ <? _)%Z = true |- _ => apply Z.ltb_lt in E
+           | E : _ || _ = true |- _ => apply orb_true_iff in E; destruct E as [E|E]
+           | E : _ && _ = true |- _ => apply andb_true_iff in E; let E2 := fresh "E" in destruct E as [E E2]
+           | E : ekind_eqb _ _ = true |- _ => apply ekind_eqb_eq in E
+           | E : negb _ = true |- _ => apply negb_true_iff in E
+           end; auto.
+Qed.
+Print Assumptions C20_dyn_excluded_is.
 
 (* non-vacuity: a history that grows twice, removes, slices and clones stays in the domain and ends as the list says *)
 Example C20_dyn_nonvacuous :
